@@ -522,8 +522,8 @@ Qed.
 
 (* ------------------------------------------------------------------ C37: the two builders agree *)
 (* Well-formedness of the builder's input (what protoc-gen-go embeds): every type is set and
-   every reference is absolute; plus the exclusion of the three recorded divergences:
-   FK1 an enum with its own feature set, FK2 an extension with lazy = true,
+   every reference is absolute; plus the exclusion of the two recorded divergences:
+   FK2 an extension with lazy = true,
    FK3 a field with both an explicit packed option and features.repeated_field_encoding. *)
 Definition ref_abs (r : option bytes) : bool := match r with Some r => pn_is_full r | None => true end.
 Definition no_packed_clash (o : option FieldOpts) : bool :=
@@ -539,14 +539,13 @@ Definition wf37_field (f : FieldP) : bool :=
   && ref_abs (f_type_name f) && no_packed_clash (f_opts f).
 Definition wf37_ext (f : FieldP) : bool :=
   wf37_field f && ref_abs (f_extendee f) && negb (opts_lazy (f_opts f)).
-Definition wf37_enum (e : EnumP) : bool := match gen_feat (e_opts e) with None => true | Some _ => false end.
 Fixpoint wf37_msg (m : MsgP) : bool :=
   match m with
   | mkMsgP _ fields exts nested enums _ _ _ _ _ _ =>
-      forallb wf37_field fields && forallb wf37_ext exts && forallb wf37_msg nested && forallb wf37_enum enums
+      forallb wf37_field fields && forallb wf37_ext exts && forallb wf37_msg nested
   end.
 Definition wf37 (p : FileP) : bool :=
-  forallb wf37_msg (fp_msgs p) && forallb wf37_enum (fp_enums p) && forallb wf37_ext (fp_exts p).
+  forallb wf37_msg (fp_msgs p) && forallb wf37_ext (fp_exts p).
 
 Lemma mapM_agree {A B} (f g : A -> Res B) :
   forall l l', Forall (fun a => forall b, f a = Ok b -> g a = Ok b) l -> mapM f l = Ok l' -> mapM g l = Ok l'.
@@ -667,11 +666,8 @@ Section Agree.
   Qed.
 
   Lemma enum_agree scope parent e re :
-    wf37_enum e = true -> res_enum PD scope parent e = Ok re -> res_enum FD scope parent e = Ok re.
-  Proof.
-    unfold wf37_enum, res_enum. cbn [st_enum_ef PD FD].
-    destruct (gen_feat (e_opts e)); [discriminate|]. intros _. cbn [merge_feat]. auto.
-  Qed.
+    res_enum PD scope parent e = Ok re -> res_enum FD scope parent e = Ok re.
+  Proof. unfold res_enum. cbn [st_enum_ef PD FD]. auto. Qed.
 
   Lemma msg_agree : forall m scope parent rm,
     wf37_msg m = true ->
@@ -679,9 +675,9 @@ Section Agree.
   Proof.
     induction m as [name fields exts nested enums xr oneofs rr rn opts vis IH] using MsgP_ind2.
     intros scope parent rm Hwf. rewrite !res_msg_unfold. cbv zeta.
-    cbn [wf37_msg] in Hwf. apply andb_prop in Hwf as [Hwf He]. apply andb_prop in Hwf as [Hwf Hn].
+    cbn [wf37_msg] in Hwf. apply andb_prop in Hwf as [Hwf Hn].
     apply andb_prop in Hwf as [Hf Hx].
-    rewrite forallb_forall in Hf, Hx, Hn, He.
+    rewrite forallb_forall in Hf, Hx, Hn.
     set (full := fn_append scope name). set (ef := merge_feat parent (msg_feat opts)).
     destruct (mapM (res_field canon PD tbl env full ef (msg_is_map_entry opts) (length oneofs)) fields) as [rfields|] eqn:Ef; cbn [bind]; [|discriminate].
     rewrite (mapM_agree (res_field canon PD tbl env full ef (msg_is_map_entry opts) (length oneofs)) (res_field canon FD tbl env full ef (msg_is_map_entry opts) (length oneofs))fields rfields); [|
@@ -704,8 +700,8 @@ Section Agree.
   Lemma file_agree p d :
     wf37 p = true -> res_file canon PD tbl env p = Ok d -> res_file canon FD tbl env p = Ok d.
   Proof.
-    unfold wf37. intros Hwf. apply andb_prop in Hwf as [Hwf Hx]. apply andb_prop in Hwf as [Hm He].
-    rewrite forallb_forall in Hm, He, Hx.
+    unfold wf37. intros Hwf. apply andb_prop in Hwf as [Hm Hx].
+    rewrite forallb_forall in Hm, Hx.
     unfold res_file. destruct (syntax_of p) as [[syn ed]|]; [|discriminate].
     set (pkg := pkg_of p). set (ef := merge_feat (ef_defaults ed) (gen_feat (fp_opts p))).
     destruct (mapM (res_enum PD pkg ef) (fp_enums p)) as [renums|] eqn:Ee; cbn [bind]; [|discriminate].
@@ -917,7 +913,8 @@ Proof. vm_compute. reflexivity. Qed.
 Lemma ex_file_wf37 : wf37 (normalize idc [] ex_file) = true /\ is_ok (new_file idc [] (normalize idc [] ex_file)) = true.
 Proof. vm_compute. split; reflexivity. Qed.
 
-(* FK1: an enum with its own features: edition 2023, enum E { option features.enum_type = CLOSED; } *)
+(* regression input for the repaired FK1 (commit 42c075f): an enum with its own features,
+   edition 2023, enum E { option features.enum_type = CLOSED; }: both builders say closed *)
 Definition feat_closed : FeatOv := mkFeatOv None (Some 2) None None None None [].
 Definition fk1_file : FileP :=
   mk_file "fk1.proto" "c" (Some "editions") (Some 1000) []
@@ -925,9 +922,10 @@ Definition fk1_file : FileP :=
 Definition first_enum_open (r : Res RFile) : option bool :=
   match r with Ok d => match rfl_enums d with e :: _ => Some (ef_open (re_ef e)) | [] => None end | Err _ => None end.
 
-Theorem builders_disagree_enum_features :
-  exists p, first_enum_open (new_file idc [] p) = Some false /\ first_enum_open (fd_build idc [] p) = Some true.
-Proof. exists fk1_file. vm_compute. split; reflexivity. Qed.
+Lemma builders_agree_enum_features_example :
+  wf37 fk1_file = true /\
+  first_enum_open (new_file idc [] fk1_file) = Some false /\ first_enum_open (fd_build idc [] fk1_file) = Some false.
+Proof. vm_compute. repeat split; reflexivity. Qed.
 
 (* FK3: packed = false together with features.repeated_field_encoding = PACKED *)
 Definition feat_packed : FeatOv := mkFeatOv None None (Some 1) None None None [].
